@@ -132,11 +132,13 @@ func strictReqSpec() []byte {
 	}
 	ok := map[string]any{"204": map[string]any{"description": "d"}}
 	paths := map[string]any{
-		"/bjson":   map[string]any{"post": map[string]any{"operationId": "bjson", "requestBody": body(map[string]any{"application/json": obj}), "responses": ok}},
-		"/bform":   map[string]any{"post": map[string]any{"operationId": "bform", "requestBody": body(map[string]any{"application/x-www-form-urlencoded": obj}), "responses": ok}},
-		"/btext":   map[string]any{"post": map[string]any{"operationId": "btext", "requestBody": body(map[string]any{"text/plain": map[string]any{"type": "string"}}), "responses": ok}},
-		"/bmulti":  map[string]any{"post": map[string]any{"operationId": "bmulti", "requestBody": body(map[string]any{"multipart/form-data": obj}), "responses": ok}},
-		"/bother":  map[string]any{"post": map[string]any{"operationId": "bother", "requestBody": body(map[string]any{"application/octet-stream": map[string]any{"type": "string", "format": "binary"}}), "responses": ok}},
+		"/bjson":  map[string]any{"post": map[string]any{"operationId": "bjson", "requestBody": body(map[string]any{"application/json": obj}), "responses": ok}},
+		"/bform":  map[string]any{"post": map[string]any{"operationId": "bform", "requestBody": body(map[string]any{"application/x-www-form-urlencoded": obj}), "responses": ok}},
+		"/btext":  map[string]any{"post": map[string]any{"operationId": "btext", "requestBody": body(map[string]any{"text/plain": map[string]any{"type": "string"}}), "responses": ok}},
+		"/bmulti": map[string]any{"post": map[string]any{"operationId": "bmulti", "requestBody": body(map[string]any{"multipart/form-data": obj}), "responses": ok}},
+		"/bother": map[string]any{"post": map[string]any{"operationId": "bother", "requestBody": body(map[string]any{"application/octet-stream": map[string]any{"type": "string", "format": "binary"}}), "responses": ok}},
+		// an OPTIONAL JSON body (requestBody.required absent): a body that is sent is decoded all the same
+		"/bopt":    map[string]any{"post": map[string]any{"operationId": "bopt", "requestBody": map[string]any{"content": map[string]any{"application/json": map[string]any{"schema": obj}}}, "responses": ok}},
 		"/bvendor": map[string]any{"post": map[string]any{"operationId": "bvendor", "requestBody": body(map[string]any{"application/vnd.api+json": obj}), "responses": ok}},
 		"/bpatch":  map[string]any{"patch": map[string]any{"operationId": "bpatch", "requestBody": body(map[string]any{"application/merge-patch+json": obj}), "responses": ok}},
 		"/bmany":   map[string]any{"post": map[string]any{"operationId": "bmany", "requestBody": body(map[string]any{"application/json": obj, "application/x-www-form-urlencoded": obj, "text/plain": map[string]any{"type": "string"}}), "responses": ok}},
@@ -357,24 +359,32 @@ func runC12(r *Report, rng *rand.Rand, thorough bool) {
 		want         any
 		method       string // POST when empty
 		reject       bool   // malformed body: no handler call, status 400
+		chunked      bool   // sent with chunked transfer encoding (length unknown)
 	}
 	reqCases := []reqCase{
-		{"bjson", "application/json", `{"a":"é","n":3}`, []string{"application/json"}, "Body", map[string]any{"a": "é", "n": 3}, "", false},
-		{"bjson", "application/json; charset=utf-8", `{"a":"x"}`, []string{"application/json"}, "Body", map[string]any{"a": "x"}, "", false},
-		{"bform", "application/x-www-form-urlencoded", "a=a+b%26c&n=3", []string{"application/x-www-form-urlencoded"}, "Body", map[string]any{"a": "a b&c", "n": 3}, "", false},
-		{"btext", "text/plain", "plain ü", []string{"text/plain"}, "Body", "plain ü", "", false},
-		{"bmulti", mpCT, mpBody, []string{"multipart/form-data"}, "Body", map[string]any{"$multipart": []any{map[string]any{"name": "a", "value": "x"}, map[string]any{"name": "n", "value": "3"}}}, "", false},
-		{"bother", "application/octet-stream", "rawbytes", []string{"application/octet-stream"}, "Body", map[string]any{"$reader": "rawbytes"}, "", false},
-		{"bmany", "application/json", `{"a":"j"}`, []string{"application/json", "application/x-www-form-urlencoded", "text/plain"}, "JSONBody", map[string]any{"a": "j"}, "", false},
-		{"bmany", "application/x-www-form-urlencoded", "a=f", []string{"application/json", "application/x-www-form-urlencoded", "text/plain"}, "FormdataBody", map[string]any{"a": "f"}, "", false},
-		{"bmany", "text/plain; charset=utf-8", "t", []string{"application/json", "application/x-www-form-urlencoded", "text/plain"}, "TextBody", "t", "", false},
-		{"bmany", "application/xml", "<x/>", []string{"application/json", "application/x-www-form-urlencoded", "text/plain"}, "", nil, "", false},
+		{"bjson", "application/json", `{"a":"é","n":3}`, []string{"application/json"}, "Body", map[string]any{"a": "é", "n": 3}, "", false, false},
+		{"bjson", "application/json; charset=utf-8", `{"a":"x"}`, []string{"application/json"}, "Body", map[string]any{"a": "x"}, "", false, false},
+		{"bform", "application/x-www-form-urlencoded", "a=a+b%26c&n=3", []string{"application/x-www-form-urlencoded"}, "Body", map[string]any{"a": "a b&c", "n": 3}, "", false, false},
+		{"btext", "text/plain", "plain ü", []string{"text/plain"}, "Body", "plain ü", "", false, false},
+		{"bmulti", mpCT, mpBody, []string{"multipart/form-data"}, "Body", map[string]any{"$multipart": []any{map[string]any{"name": "a", "value": "x"}, map[string]any{"name": "n", "value": "3"}}}, "", false, false},
+		{"bother", "application/octet-stream", "rawbytes", []string{"application/octet-stream"}, "Body", map[string]any{"$reader": "rawbytes"}, "", false, false},
+		{"bmany", "application/json", `{"a":"j"}`, []string{"application/json", "application/x-www-form-urlencoded", "text/plain"}, "JSONBody", map[string]any{"a": "j"}, "", false, false},
+		{"bmany", "application/x-www-form-urlencoded", "a=f", []string{"application/json", "application/x-www-form-urlencoded", "text/plain"}, "FormdataBody", map[string]any{"a": "f"}, "", false, false},
+		{"bmany", "text/plain; charset=utf-8", "t", []string{"application/json", "application/x-www-form-urlencoded", "text/plain"}, "TextBody", "t", "", false, false},
+		{"bmany", "application/xml", "<x/>", []string{"application/json", "application/x-www-form-urlencoded", "text/plain"}, "", nil, "", false, false},
 		// JSON media types other than application/json, on POST and PATCH; a malformed document is rejected
-		{"bvendor", "application/vnd.api+json", `{"a":"v","n":7}`, []string{"application/vnd.api+json"}, "Body", map[string]any{"a": "v", "n": 7}, "", false},
-		{"bvendor", "application/vnd.api+json; charset=utf-8", `{"a":"w"}`, []string{"application/vnd.api+json"}, "Body", map[string]any{"a": "w"}, "", false},
-		{"bvendor", "application/vnd.api+json", `{"a":`, []string{"application/vnd.api+json"}, "", nil, "", true},
-		{"bpatch", "application/merge-patch+json", `{"a":"p","n":1}`, []string{"application/merge-patch+json"}, "Body", map[string]any{"a": "p", "n": 1}, "PATCH", false},
-		{"bjson", "application/json", `{"a":`, []string{"application/json"}, "", nil, "", true},
+		{"bvendor", "application/vnd.api+json", `{"a":"v","n":7}`, []string{"application/vnd.api+json"}, "Body", map[string]any{"a": "v", "n": 7}, "", false, false},
+		{"bvendor", "application/vnd.api+json; charset=utf-8", `{"a":"w"}`, []string{"application/vnd.api+json"}, "Body", map[string]any{"a": "w"}, "", false, false},
+		{"bvendor", "application/vnd.api+json", `{"a":`, []string{"application/vnd.api+json"}, "", nil, "", true, false},
+		{"bpatch", "application/merge-patch+json", `{"a":"p","n":1}`, []string{"application/merge-patch+json"}, "Body", map[string]any{"a": "p", "n": 1}, "PATCH", false, false},
+		{"bjson", "application/json", `{"a":`, []string{"application/json"}, "", nil, "", true, false},
+		// bodies that arrive chunked (a streaming client, a re-chunking proxy): decoded like any other
+		{"bjson", "application/json", `{"a":"chunked","n":5}`, []string{"application/json"}, "Body", map[string]any{"a": "chunked", "n": 5}, "", false, true},
+		{"bvendor", "application/vnd.api+json", `{"a":"chunked"}`, []string{"application/vnd.api+json"}, "Body", map[string]any{"a": "chunked"}, "", false, true},
+		{"bform", "application/x-www-form-urlencoded", "a=ch&n=1", []string{"application/x-www-form-urlencoded"}, "Body", map[string]any{"a": "ch", "n": 1}, "", false, true},
+		{"btext", "text/plain", "chunked text", []string{"text/plain"}, "Body", "chunked text", "", false, true},
+		{"bopt", "application/json", `{"a":"opt","n":2}`, []string{"application/json"}, "Body", map[string]any{"a": "opt", "n": 2}, "", false, false},
+		{"bopt", "application/json", `{"a":"opt-chunked"}`, []string{"application/json"}, "Body", map[string]any{"a": "opt-chunked"}, "", false, true},
 	}
 	for _, fw := range Frameworks {
 		name := "c12_req_" + fw
@@ -390,7 +400,7 @@ func runC12(r *Report, rng *rand.Rand, thorough bool) {
 				method = "POST"
 			}
 			scenarios = append(scenarios, map[string]any{"id": id, "pkg": name, "opts": opts(map[string]any{}),
-				"req": map[string]any{"method": method, "target": "/" + rc.op, "header": map[string][]string{"Content-Type": {rc.ct}}, "body": rc.body}})
+				"req": map[string]any{"method": method, "target": "/" + rc.op, "header": map[string][]string{"Content-Type": {rc.ct}}, "body": rc.body, "chunked": rc.chunked}})
 			metas[id] = meta{fw, scell{Op: rc.op}, map[string]any{"i": i}, "request"}
 		}
 		id := name + "/params"
@@ -608,5 +618,5 @@ func runC12(r *Report, rng *rand.Rand, thorough bool) {
 	vcases.WriteTo(r)
 	bcases.WriteTo(r)
 	r.Exhaustive = true
-	r.Rule = "response cells: media type {application/json, vendor +json, text/plain, form, multipart/form-data, multipart/related, octet-stream, image/* (wildcard), application/*+json (tagged wildcard), no content} x status {200, 4XX, default} x headers {none, two} x {inline, component reference}, plus JSON bodies whose schema is a reference to a component with additionalProperties: true (additional members supplied by the handler), each returned by a recording strict handler of each of the 7 frameworks with generated values (and with / without a strict middleware); observed status, Content-Type, headers and body vs the declaration and vs the model in Coq; handler error -> error path; request side: JSON (+charset), vendor +json on POST and merge-patch+json on PATCH, malformed JSON documents (rejected with 400), form, text, multipart, octet-stream and multi-body operations x Content-Types incl. undeclared, path/query/header parameters in the request object; non-trivial = not the plain JSON 200 cell"
+	r.Rule = "response cells: media type {application/json, vendor +json, text/plain, form, multipart/form-data, multipart/related, octet-stream, image/* (wildcard), application/*+json (tagged wildcard), no content} x status {200, 4XX, default} x headers {none, two} x {inline, component reference}, plus JSON bodies whose schema is a reference to a component with additionalProperties: true (additional members supplied by the handler), each returned by a recording strict handler of each of the 7 frameworks with generated values (and with / without a strict middleware); observed status, Content-Type, headers and body vs the declaration and vs the model in Coq; handler error -> error path; request side: JSON (+charset), vendor +json on POST and merge-patch+json on PATCH, malformed JSON documents (rejected with 400), bodies arriving with chunked transfer encoding, form, text, multipart, octet-stream and multi-body operations x Content-Types incl. undeclared, path/query/header parameters in the request object; non-trivial = not the plain JSON 200 cell"
 }
